@@ -260,7 +260,7 @@ func needsSpace(a, b string) bool {
 
 // ---------------------------------------------------------------- generation
 
-var idNames = []string{"a", "b", "c", "x", "y", "foo", "$", "_z", "q1", "get", "of", "let", "\u00e9t\u00e9", "instanceOf", "In", "e\u0301", "a\u0663", "a\u203f", "\u2160", "\u2118", "x\u0300y", "\u02b0x"}
+var idNames = []string{"a", "b", "c", "x", "y", "foo", "$", "_z", "q1", "get", "of", "let", "\u00e9t\u00e9", "instanceOf", "In", "e\u0301", "a\u0663", "a\u203f", "\u2160", "\u2118", "x\u0300y", "\u02b0x", "a\u200db", "\u0646\u200c\u0647"}
 var numLits = []string{"0", "1", "42", "3.5", ".5", "5.", "1e3", "0x1F", "017", "1E-2"}
 var strLits = []string{"'s'", "\"t\"", "''", "'a b'", "\"\\n\""}
 
